@@ -1,6 +1,7 @@
 """C11 — stacks are LIFO: push/pop/pop_all lose nothing, duplicate nothing (partial)."""
 from .. import ir, mm, pat, paths
 from ..core import Broken
+from . import c10
 from .c10 import copies
 
 META = {
@@ -233,12 +234,37 @@ def rule_macro(ctx, rep):
             rep.check(mac in have, "C11.macro", "inventory." + mac, "iteration macro has a witness", "iteration macro %s of %s has no witness: not analysed" % (mac, h), [h])
 
 
+BLOCKING_WFS = ["__cds_wfs_pop_blocking", "__cds_wfs_pop_with_state_blocking", "cds_wfs_pop_blocking", "cds_wfs_pop_with_state_blocking", "cds_wfs_next_blocking"]
+
+
+def rule_blocking(ctx, rep):
+    """The blocking entry points never hand the non-blocking sentinel to their caller: CDS_WFS_WOULDBLOCK (-1) is returned
+    only by the *_nonblocking variants; a blocking pop / next waits (or retries) instead.  Checked on the specialised code of
+    every exported blocking function: no return value can be the constant -1."""
+    m = ctx.mod("cds", "flat")
+    for name in BLOCKING_WFS:
+        f = m.fn(name)
+        pat.require(f is not None, name + " vanished")
+        rep.touch(f)
+        bad = []
+        for r in f.rets():
+            if r.args:
+                e = ir.expr(f, r.args[0], 8, through_phi=True)
+                if ir.expr_contains(e, lambda z: z == ("c", -1)):
+                    bad.append(r)
+        rep.check(not bad, "C11.blocking", name + ".never-WOULDBLOCK", "never returns the WOULDBLOCK sentinel",
+                  "%s can return (struct cds_wfs_node *)-1 (CDS_WFS_WOULDBLOCK): the blocking variant is built with blocking=0 somewhere; callers get a `node` that was never pushed" % name,
+                  [b.where() for b in bad[:1]])
+
+
 RULES = [
     ("C11.wfs", rule_wfs),
     ("C11.lfs", rule_lfs),
     ("C11.locked", rule_locked),
     ("C11.usage", rule_usage),
     ("C11.iter", rule_iter),
+    ("C11.blocking", rule_blocking),
+    ("C11.exported", lambda c, r: c10.rule_exported_locked(c, r, "C11")),
     ("C11.macro", rule_macro),
 ]
 FLOORS = {}
